@@ -1175,6 +1175,9 @@ run_task(_task_t t)
 
 	if (!(t->nsim < (unsigned int)t->t->max_simul)) {
 		args[2U] = "-nd";
+	} else {
+		/* args is static, don't let an earlier --no-run stick */
+		args[2U] = NULL;
 	}
 
 	/* prep the IPC with echsx */
